@@ -121,6 +121,11 @@ def run_case(case):
 
 
 def main():
+    import resource
+    try:  # a runaway allocation inside a kernel must fail fast, not exhaust the machine
+        resource.setrlimit(resource.RLIMIT_AS, (6 << 30, 6 << 30))
+    except (ValueError, OSError):
+        pass
     payload = json.load(sys.stdin)
     outs = [run_case(c) for c in payload["cases"]]
     print(json.dumps({"out": outs}))
